@@ -312,6 +312,14 @@ def make_doc(rng, tier):
     pool = [clamp_ordinal(anchor + rng.randint(-spread, spread)) for _ in range(max(1, rng.choice([n, n, n // 2 + 1, 2])))]
     for r in d.records:
         r.ymd = from_ordinal(rng.choice(pool))
+    if d.records and rng.random() < 0.01:
+        # two durations that cannot be added in klog's integers (known finding K1): every view must then fail the same way
+        for _ in range(2):
+            e = specgen.Entry(rng, allow_open=False)
+            e.kind, e.first, e.more = "dur", None, []
+            e.d = specgen.Dur(rng)
+            e.d.sign, e.d.h, e.d.m, e.d.zh, e.d.zm = "", None, 5 * 10**18, "", ""
+            rng.choice(d.records).entries.append(e)
     order = rng.random()
     if order < 0.15:
         d.records.sort(key=lambda r: ordinal(r.ymd))
@@ -390,9 +398,20 @@ def k12_week_year_label(req, out):
     R = secs.get("R", [])
     return len(R) >= 2 and R[1].startswith("?-52=") and not any(t.startswith("?") for t in R[2:])
 
+def file_overflows(req):
+    """the durations written in the file add up beyond int64"""
+    import re
+    text = bytes.fromhex(req.split(" ")[10]) if req.split(" ")[10] != "-" else b""
+    tot = sum(int(h) * 60 for h in re.findall(rb"(\d+)h", text)) + sum(int(m) for m in re.findall(rb"(\d+)m", text))
+    return tot > I64
+
+def k1_views_overflow(req, out):
+    """K1 as seen by the views: the file's durations add up beyond int64, `klog total` / `report` / `today` panic"""
+    return req.startswith("report-run ") and out.startswith("crash ") and file_overflows(req)
+
 def suites():
     return [
-        Suite("views", gen_views, oracle=oracle, nontrivial=nontrivial,
+        Suite("views", gen_views, oracle=oracle, nontrivial=nontrivial, env={"GOMAXPROCS": "2"},
               rule="`klog report --aggregate day|week|month|quarter|year [--fill] [--diff] [--now]`, `klog total --diff [--now]`, `klog today --diff [--now]`, "
                    "`klog print --with-totals` on one conforming file (0-70 records, unsorted / descending, duplicate dates, clustered around New Year and ISO "
                    "weeks 52/53/1, quarter and month ends, leap days, 0000-01-01 and 9999-12-31, negative totals, open ranges) at an instant on / after / away "
